@@ -68,3 +68,34 @@ CONTRACTS.append(Contract(
     decreases='1', returns=ListOf(('opt', ('ref', 'object'))),
     ensures=[('array-stays-an-array-of-the-same-length', 'isinstance(result, list) and len(result) == len(val)')],
     raises={'CIMXMLParseError': Raises(), 'XMLParseError': Raises()}))
+
+# ---- encoder side: every attribute of the object is handed to the element constructor (nothing dropped, nothing
+# substituted); the callee preconditions relate the constructor arguments to the attributes of the object being encoded
+X = 'pywbem/_cim_xml.py::'
+O = 'pywbem/_cim_obj.py::'
+CLASS_SPECS = {'CIMInstanceName': {'host': Opt(Str), 'namespace': Opt(Str), 'classname': Str},
+               'CIMClassName': {'host': Opt(Str), 'namespace': Opt(Str), 'classname': Str}}
+PROP = dict(name=Str, type=Str, reference_class=Opt(Str), embedded_object=Opt(Str), array_size=Opt(Int),
+            class_origin=Opt(Str), propagated=Opt(Bool), qualifiers=Ref('NocaseDict'))
+qual_tocimxml_c = Contract(O + 'CIMQualifier.tocimxml', returns=Ref('QUALIFIER'), trusted=True)
+COMMON = 'name == caller_self.name and class_origin == caller_self.class_origin and propagated == caller_self.propagated'
+path_tocimxml_i = Contract(O + 'CIMInstanceName.tocimxml', returns=Ref('Element'), trusted=True,
+                           requires=[('the-complete-path-is-encoded', 'self is caller_self.value and not ignore_host')],
+                           notes='host and namespace of a reference value are part of the value')
+path_tocimxml_c = Contract(O + 'CIMClassName.tocimxml', returns=Ref('Element'), trusted=True,
+                           requires=[('the-complete-path-is-encoded', 'self is caller_self.value and not ignore_host')])
+value_reference_c = Contract(X + 'VALUE_REFERENCE.__init__', trusted=True, raises={})
+property_reference_c = Contract(
+    X + 'PROPERTY_REFERENCE.__init__', trusted=True, raises={},
+    requires=[('every-attribute-is-handed-over', COMMON + ' and reference_class == caller_self.reference_class'),
+              ('NULL-value-means-no-VALUE.REFERENCE-child', '(value_reference is None) == (caller_self.value is None)')])
+CONTRACTS.append(Contract(
+    O + 'CIMProperty.tocimxml', label='scalar reference',
+    params={'self': Obj('CIMProperty', is_array=Lit(False), value=Union(NoneT, Ref('CIMInstanceName'), Ref('CIMClassName')),
+                        **dict(PROP, type=Lit('reference')))},
+    callees={'CIMQualifier.tocimxml': qual_tocimxml_c, 'CIMInstanceName.tocimxml': path_tocimxml_i,
+             'CIMClassName.tocimxml': path_tocimxml_c, 'VALUE_REFERENCE.__init__': value_reference_c,
+             'PROPERTY_REFERENCE.__init__': property_reference_c},
+    kinds={'nocasedict.values': ('ref', 'CIMQualifier')},
+    ensures=[('a-PROPERTY.REFERENCE-element', 'isinstance(result, _cim_xml.PROPERTY_REFERENCE)')],
+    raises={}))
